@@ -60,14 +60,14 @@ Qed.
 Definition qinv (t : tree) : Prop :=
   ok t /\ sorted (inorder t) /\ pairwise_disjoint (inorder t) /\ Forall valid (inorder t).
 
-Lemma qinv_node l lo hi mx h r :
-  qinv (Node l lo hi mx h r) ->
+Lemma qinv_node l lo hi tg mx h r :
+  qinv (Node l lo hi tg mx h r) ->
   qinv l /\ qinv r
   /\ (forall y, In y (inorder l) -> snd y < lo)
-  /\ (forall y, In y (inorder (Node l lo hi mx h r)) -> snd y <= mx).
+  /\ (forall y, In y (inorder (Node l lo hi tg mx h r)) -> snd y <= mx).
 Proof.
   intros (Hok & Hs & Hd & Hv).
-  pose proof (ok_max_bound _ _ _ _ _ _ Hok) as Hmx. rewrite Forall_forall in Hmx.
+  pose proof (ok_max_bound _ _ _ _ _ _ _ Hok) as Hmx. rewrite Forall_forall in Hmx.
   destruct Hok as (Hl & Hr & _). fold ok in Hl, Hr.
   cbn [inorder] in Hs, Hd, Hv.
   apply sorted_node in Hs as (Hsl & Hsr & Hlk & Hkr).
@@ -87,8 +87,8 @@ Qed.
 Lemma intersects_node_exact t low high :
   qinv t -> intersects_node t low high = existsb (overlaps (low, high)) (inorder t).
 Proof.
-  induction t as [|l IHl lo hi mx h r IHr]; intros Hq; [reflexivity|].
-  destruct (qinv_node _ _ _ _ _ _ Hq) as (Hql & Hqr & Hleft & Hmx).
+  induction t as [|l IHl lo hi tg mx h r IHr]; intros Hq; [reflexivity|].
+  destruct (qinv_node _ _ _ _ _ _ _ Hq) as (Hql & Hqr & Hleft & Hmx).
   cbn [intersects_node].
   destruct (Z.ltb_spec mx low) as [Hprune|Hprune].
   - symmetry. apply existsb_none. intros y Hy. specialize (Hmx y Hy).
@@ -108,8 +108,8 @@ Lemma check_other_exact t low high slo shi :
   check_other t low high slo shi
   = existsb (fun y => overlaps (low, high) y && negb (same (slo, shi) y)) (inorder t).
 Proof.
-  induction t as [|l IHl lo hi mx h r IHr]; intros Hq; [reflexivity|].
-  destruct (qinv_node _ _ _ _ _ _ Hq) as (Hql & Hqr & Hleft & Hmx).
+  induction t as [|l IHl lo hi tg mx h r IHr]; intros Hq; [reflexivity|].
+  destruct (qinv_node _ _ _ _ _ _ _ Hq) as (Hql & Hqr & Hleft & Hmx).
   cbn [check_other].
   destruct (Z.ltb_spec mx low) as [Hprune|Hprune].
   - symmetry. apply existsb_none. intros y Hy. specialize (Hmx y Hy).
